@@ -25,12 +25,17 @@ Definition C_KeyError : N := 4.
 (* values *)
 Inductive sval := VStr (s : str) | VNum (z : Z) | VBool (b : bool) | VNull | VRef (f : str) | VRe (s : str).
 Inductive pval := PStr (s : str) | PNum (z : Z) | PBool (b : bool) | PNull.
-Inductive stval := SStr (s : str) | SInt (z : Z).
+(* Python numbers as they occur in pipeline state, custom attributes and condition parameters:
+   int, bool (a subclass of int: True == 1) and the floats k/2; all compare by numeric value *)
+Inductive num := NInt (z : Z) | NBool (b : bool) | NHalf (h : Z).
+Definition nval (n : num) : Z :=          (* twice the numeric value *)
+  match n with NInt z => (2 * z)%Z | NBool b => if b then 2%Z else 0%Z | NHalf h => h end.
+Inductive stval := SStr (s : str) | SNum (n : num) | SNone.
 Inductive cmpop := OEq | ONe | OGte | OGt | OLte | OLt.
 Inductive aop := AEq | ANe | AGte | AGt | ALte | ALt | AIn | ANotIn.
-Inductive aval := AStr (s : str) | AInt (z : Z) | ADate (n : N) | ALevel (n : N) | AStatus (n : N)
+Inductive aval := AStr (s : str) | ANum (n : num) | ADate (n : N) | ALevel (n : N) | AStatus (n : N)
                 | AList (l : list str) | AUnsup.
-Inductive apar := QStr (s : str) | QInt (z : Z).
+Inductive apar := QStr (s : str) | QNum (n : num).
 
 (* the regular-expression fragment the generator draws from; re.match = anchored at the start only *)
 Inductive ratom := RLit (c : char) | RAny | RDigit | RStar | REnd | RBad.   (* RBad: a pattern re.compile rejects *)
@@ -135,11 +140,13 @@ Definition match_state (st : list (str * stval)) (k : str) (v : stval) (op : cmp
   | Some sv =>
     match sv, v with
     | SStr a, SStr b => Ok (cmp_ord op (str_ltb a b) (str_eqb a b))
-    | SInt a, SInt b => Ok (cmp_ord op (Z.ltb a b) (Z.eqb a b))
-    | _, _ => match op with
-              | OEq => Ok false | ONe => Ok true
-              | _ => Crash C_TypeError      (* '>=' not supported between instances of 'str' and 'int' *)
-              end
+    | SNum a, SNum b => Ok (cmp_ord op (Z.ltb (nval a) (nval b)) (Z.eqb (nval a) (nval b)))
+    | _, _ =>
+      let eq := match sv, v with SNone, SNone => true | _, _ => false end in
+      match op with
+      | OEq => Ok eq | ONe => Ok (negb eq)
+      | _ => Crash C_TypeError      (* '>=' not supported between instances of 'str' and 'int' / 'NoneType' *)
+      end
     end
   end.
 
@@ -190,12 +197,25 @@ Fixpoint digits_val (acc : Z) (s : str) : option Z :=
   | [] => Some acc
   | c :: s' => if (48 <=? c) && (c <=? 57) then digits_val (acc * 10 + Z.of_N (c - 48))%Z s' else None
   end.
+(* digits, optionally followed by ".0" or ".5": twice the value *)
+Fixpoint dec_val (acc : Z) (s : str) : option Z :=
+  match s with
+  | [] => Some (2 * acc)%Z
+  | c :: s' =>
+    if (48 <=? c) && (c <=? 57) then dec_val (acc * 10 + Z.of_N (c - 48))%Z s'
+    else if c =? 46 then match s' with
+                         | [d] => if d =? 48 then Some (2 * acc)%Z else if d =? 53 then Some (2 * acc + 1)%Z else None
+                         | _ => None end
+    else None
+  end.
+Definition starts_digit (s : str) : bool := match s with c :: _ => (48 <=? c) && (c <=? 57) | [] => false end.
+(* twice float(s) *)
 Definition parse_num (s : str) : option Z :=
   match s with
   | [] => None
-  | c :: s' => if c =? 45 then match s' with [] => None | _ => option_map Z.opp (digits_val 0%Z s') end
-               else if c =? 43 then match s' with [] => None | _ => digits_val 0%Z s' end
-               else digits_val 0%Z s
+  | c :: s' => if c =? 45 then (if starts_digit s' then option_map Z.opp (dec_val 0%Z s') else None)
+               else if c =? 43 then (if starts_digit s' then dec_val 0%Z s' else None)
+               else if starts_digit s then dec_val 0%Z s else None
   end.
 
 (* date.fromisoformat for YYYY-MM-DD *)
@@ -253,26 +273,26 @@ Definition attr_match (r : rule) (a : str) (pv : apar) (op : aop) : outcome bool
   match rule_getattr r a with
   | None => Ok false
   | Some (AList l) =>
-    let isin := match pv with QStr s => smem s l | QInt _ => false end in
+    let isin := match pv with QStr s => smem s l | QNum _ => false end in
     match op with
     | AIn => Ok isin | ANotIn => Ok (negb isin)
     | AEq => Ok false | ANe => Ok true
     | _ => Ok false
     end
   | Some (AStr s) =>
-    let eq := match pv with QStr t => str_eqb s t | QInt _ => false end in
+    let eq := match pv with QStr t => str_eqb s t | QNum _ => false end in
     match op with
     | AEq => Ok eq | ANe => Ok (negb eq)
     | _ => SigmaErr E_Config
     end
-  | Some (AInt z) =>
-    match (match pv with QInt n => Some n | QStr t => parse_num t end) with
+  | Some (ANum a) =>
+    match (match pv with QNum n => Some (nval n) | QStr t => parse_num t end) with
     | None => SigmaErr E_Config
-    | Some n => aop_ord op (Z.ltb z n) (Z.eqb z n)
+    | Some n => aop_ord op (Z.ltb (nval a) n) (Z.eqb (nval a) n)
     end
   | Some (ADate d) =>
     match pv with
-    | QInt _ => SigmaErr E_Config
+    | QNum _ => SigmaErr E_Config
     | QStr t => match parse_date t with
                 | None => SigmaErr E_Config
                 | Some n => aop_ord op (d <? n) (d =? n)
@@ -280,7 +300,7 @@ Definition attr_match (r : rule) (a : str) (pv : apar) (op : aop) : outcome bool
     end
   | Some (ALevel l) =>
     match pv with
-    | QInt _ => SigmaErr E_Config
+    | QNum _ => SigmaErr E_Config
     | QStr t => match index_of (upper t) level_names 0 with
                 | None => SigmaErr E_Config
                 | Some n => aop_ord op (l <? n) (l =? n)
@@ -288,7 +308,7 @@ Definition attr_match (r : rule) (a : str) (pv : apar) (op : aop) : outcome bool
     end
   | Some (AStatus l) =>
     match pv with
-    | QInt _ => SigmaErr E_Config
+    | QNum _ => SigmaErr E_Config
     | QStr t => match index_of (upper t) status_names 0 with
                 | None => SigmaErr E_Config
                 | Some n => aop_ord op (l <? n) (l =? n)
